@@ -11,3 +11,33 @@ Proof. vm_compute. reflexivity. Qed.
 (* all 95 registered method bodies are in the generated file (bodies + recorded findings) *)
 Lemma gen_registered_count : Nat.leb 90 n_registered = true.
 Proof. vm_compute. reflexivity. Qed.
+
+(* cross-call aliasing: self.x / self.z may be the caller's arrays (float64, sorted input).  In every analysed body
+   (registered methods, helpers, the decorator wrappers) they are either not mentioned or treated as caller-owned
+   on entry, and no write site has them as root; with gen_writes_ok no write goes through any alias of them. *)
+Lemma gen_self_xz_guarded :
+  forallb (fun b => attr_guarded "self.x" b && attr_guarded "self.z" b
+                    && attr_guarded "self.x.*" b && attr_guarded "self.z.*" b) write_bodies = true.
+Proof. vm_compute. reflexivity. Qed.
+
+Lemma gen_xz_classified_caller_owned :
+  existsb (String.eqb "x") caller_attrs && existsb (String.eqb "z") caller_attrs
+  && negb (existsb (String.eqb "x") fresh_attrs) && negb (existsb (String.eqb "z") fresh_attrs) = true.
+Proof. vm_compute. reflexivity. Qed.
+
+(* every persistent attribute that is not proven fresh is guarded the same way in every body *)
+Lemma gen_caller_attrs_guarded :
+  forallb (fun a => forallb (attr_guarded (String.append "self." a)) write_bodies) caller_attrs = true.
+Proof. vm_compute. reflexivity. Qed.
+
+(* the decorator layers are analysed like every other body: the `inner` closures of _Algorithm._register,
+   _Algorithm2D._register and _class_wrapper (parameters of `inner` unknown, i.e. caller-owned) together with
+   _return_results write through no caller-owned source at all *)
+Definition has_body (nm : string) : bool := existsb (fun b => String.eqb (b_name b) nm) bodies.
+Lemma gen_wrappers_checked :
+  has_body "_algorithm_setup:_Algorithm._register [writes only ]"
+  && has_body "two_d._algorithm_setup:_Algorithm2D._register [writes only ]"
+  && has_body "_algorithm_setup:_class_wrapper [writes only ]"
+  && has_body "_algorithm_setup:_Algorithm._return_results [writes only params]"
+  && has_body "two_d._algorithm_setup:_Algorithm2D._return_results [writes only params]" = true.
+Proof. vm_compute. reflexivity. Qed.
